@@ -69,8 +69,19 @@ strictly on one side of the point -/
 theorem not_overlaps_side (p : P) (ring : List P)
     (h : (newBounds.extendPoints ring).overlaps (newBoundsPoint p) = false) :
     (∀ v ∈ ring, p.x < v.x) ∨ (∀ v ∈ ring, v.x < p.x) ∨ (∀ v ∈ ring, p.y < v.y) ∨ (∀ v ∈ ring, v.y < p.y) := by
-  unfold Bounds.overlaps newBoundsPoint at h
+  unfold Bounds.overlaps at h
   simp only [Bool.and_eq_false_iff] at h
+  rcases h with (he | he) | h
+  · -- the ring's box is empty: the ring has no vertex
+    left; intro v hv
+    exfalso
+    obtain ⟨h1, h2, h3, h4⟩ := extendPoints_covers ring newBounds v hv
+    have hx := ERat.le_trans h1 h3
+    have hy := ERat.le_trans h2 h4
+    simp [Bounds.empty, hx, hy] at he
+  · -- the point's box is never empty
+    simp [Bounds.empty, newBoundsPoint, ERat.le_refl] at he
+  unfold newBoundsPoint at h
   rcases h with ((h | h) | h) | h
   · left; intro v hv
     by_contra hc
